@@ -415,7 +415,10 @@ int cif_parse(FILE *stream, struct cif_parse_opts_s *options, cif_tp **cifp) {
                 DEFAULT_FAIL(early);
             } else if (encoding_name != NULL) {
                 /* a Unicode encoding signature is successfully detected */
-                /* nothing to do here */
+                if ((options->prefer_cif2 < 20) && (options->prefer_cif2 > 0)) {
+                    /* the version is still open: CIF 2.0 unless a version comment says otherwise, as the user prefers */
+                    cif_version = -2;
+                }
             } else if (options->prefer_cif2 > 19) {
                 /*
                  * The encoding was not confidently identified or explicitly named, but the user insists on parsing as
